@@ -241,13 +241,24 @@ class Model:
     def __init__(self, sources: SourceSet):
         self.sources = sources
         self.modules: dict[str, ModuleInfo] = {}
+        trees: dict[str, ast.Module] = {}
         for rel, text in sorted(sources.files.items()):
             path = os.path.join(sources.root, PKG_SUBDIR, rel)
             try:
-                tree = ast.parse(text, filename=path)
+                trees[rel] = ast.parse(text, filename=path)
             except SyntaxError as e:
                 raise AnalysisError(f"{path} does not parse: {e}") from e
-            self.modules[rel] = ModuleInfo(rel=rel, path=path, tree=tree, source=text)
+        # behaviour-preserving canonicalisation of the model's own copy (see sa/normalize.py)
+        from .normalize import closed_class_names, isinstance_to_match, normalize_module
+
+        closed = closed_class_names(trees)
+        self.inlined = 0
+        self.dispatches_converted = 0
+        for rel, tree in trees.items():
+            self.inlined += normalize_module(rel, tree)
+            self.dispatches_converted += isinstance_to_match(tree, closed)
+            path = os.path.join(sources.root, PKG_SUBDIR, rel)
+            self.modules[rel] = ModuleInfo(rel=rel, path=path, tree=tree, source=sources.files[rel])
         for m in self.modules.values():
             self._index_module(m)
         for m in self.modules.values():
